@@ -21,6 +21,7 @@ from dsim import gen, pipe
 from dsim import refmodel as R
 from dsim.actors import read_all, exc_summary
 from dsim.props import c01
+from dsim.actors import STREAM_KINDS
 from dsim.world import World
 
 ID = 'C07'
@@ -303,7 +304,7 @@ def execute(scn, L):
     out.evals = 0
     bs = scn.get('block_size')
     skw = {'stream': scn.get('stream') if scn.get('stream') in
-           ('sim', 'bytesio', 'buffered') else 'sim', 'buf': scn.get('buf'),
+           STREAM_KINDS else 'sim', 'buf': scn.get('buf'),
            'extras': {'shadow': scn.get('shadow')}}
     crash = [f for f in scn.get('faults', ()) if f['kind'] == 'crash']
     lenf = [f for f in scn.get('faults', ()) if f['kind'] == 'length_fault']
